@@ -15,7 +15,8 @@ import (
 // C14 part 3 — two real in-process nodes over loopback TCP with observer actors.
 // Scenarios: for every target kind (pid, name, alias, event, node) × {link, monitor}:
 //   * remote termination while connected  -> exactly one exit/down carrying the remote reason
-//   * connection cut (Disconnect)         -> exactly one exit/down with ErrNoConnection
+//   * connection cut by the dialing node / by the accepting node (Disconnect)
+//                                         -> exactly one exit/down with ErrNoConnection
 //   * peer node stopped                   -> exactly one exit/down with ErrNoConnection
 // calls in flight when the connection is cut return within their timeout; after a restart of the
 // peer under the same name identifiers of the old incarnation are refused with ErrProcessIncarnation
@@ -432,6 +433,14 @@ func c14runScenario(p *c14pair, sc c14Scen) c14result {
 			return res
 		}
 		rn.Disconnect()
+	case "cutB":
+		// the accepting side drops the connection
+		rn, err := p.b.Network().Node(p.nameA)
+		if err != nil {
+			res.setupErr = "no connection to cut on the accepting side: " + err.Error()
+			return res
+		}
+		rn.Disconnect()
 	case "stop":
 		p.b.StopForce()
 	}
@@ -489,7 +498,7 @@ func c14runScenario(p *c14pair, sc c14Scen) c14result {
 			res.violation = fmt.Sprintf("%s: reason %v, want %v", desc, reasons[0], wantReason)
 		}
 	}
-	if sc.Fault == "cut" || sc.Fault == "stop" {
+	if sc.Fault == "cut" || sc.Fault == "stop" || sc.Fault == "cutB" {
 		if !p.waitNoConn(6 * time.Second) {
 			res.inconclusive = "the connection objects were not released within 6 s after the " + sc.Fault
 		}
@@ -668,6 +677,20 @@ func c14Nodes(c *Ctx) {
 		return res.setupErr == ""
 	}
 	rounds := c.N(1, 6)
+	if os.Getenv("C14_DEBUG") == "stale" {
+		for i := 0; i < 4; i++ {
+			p, err := newC14pair(true)
+			if err != nil {
+				panic(err)
+			}
+			fmt.Println("=========== stale", i)
+			c14calls(c, p)
+			c14stale(c, p)
+			fmt.Printf("=========== result %v %v\n", r.Distribution, r.Violations)
+			p.stop()
+		}
+		return
+	}
 	if os.Getenv("C14_DEBUG") != "" {
 		p, err := newC14pair(false)
 		if err != nil {
@@ -675,7 +698,7 @@ func c14Nodes(c *Ctx) {
 		}
 		for i := 0; i < 6; i++ {
 			fmt.Println("=========== scenario", i)
-			res := c14runScenario(p, c14Scen{"pid", "monitor", "cut", false})
+			res := c14runScenario(p, c14Scen{"pid", "monitor", "cutB", false})
 			fmt.Printf("=========== result %+v\n", res)
 		}
 		p.stop()
@@ -706,6 +729,7 @@ func c14Nodes(c *Ctx) {
 						scs = append(scs, c14Scen{k, rel, "terminate", ca != cb})
 					}
 					scs = append(scs, c14Scen{k, rel, "cut", ca != cb})
+					scs = append(scs, c14Scen{k, rel, "cutB", ca != cb})
 				}
 			}
 			for i := len(scs) - 1; i > 0; i-- {
